@@ -1,13 +1,20 @@
 #!/bin/bash
-# usage: tools/try_seed.sh <patch.diff> <Cxx> [quick|thorough]   -- apply a seeded change to /repo, run the check, undo it
+# usage: tools/try_seed.sh <patch.diff> <Cxx> [quick|thorough]
+# Calibration helper: applies a seeded change to a scratch worktree of /repo HEAD (outside /repo and /verif), runs the
+# check against it (VERIF_REPO), writes evidence to a scratch directory, removes the worktree.
+# (The documented procedure - git -C /repo apply; ./check; git -C /repo checkout -- . - gives the same result;
+#  the scratch worktree lets several seeds be tried while /repo stays untouched.)
 set -u
-P="$1"; PID="$2"; TIER="${3:-quick}"
-cd /repo || exit 9
-if [ -n "$(git status --porcelain --untracked-files=no)" ]; then echo "repo not clean" >&2; exit 9; fi
-git apply "$P" || { echo "patch does not apply" >&2; exit 8; }
+P="$(readlink -f "$1")"; PID="$2"; TIER="${3:-quick}"
+NAME="$(echo "$P" | tr '/.' '__')_$PID"
+WT="/tmp/tryseed/$NAME"
+mkdir -p /tmp/tryseed /tmp/tryseed_out/$NAME
+git -C /repo worktree remove --force "$WT" 2>/dev/null
+git -C /repo worktree add -q --detach "$WT" HEAD || exit 9
+( cd "$WT" && git apply "$P" ) || { echo "patch does not apply"; git -C /repo worktree remove --force "$WT"; exit 8; }
 cd /verif
-./check "$PID" "$TIER" > /tmp/try_seed_out.txt 2>&1
+VERIF_REPO="$WT" VERIF_OUT="/tmp/tryseed_out/$NAME" ./check "$PID" "$TIER" > "/tmp/tryseed_out/$NAME/out.txt" 2>&1
 rc=$?
-git -C /repo checkout -- .
-grep -E "^(VIOLATION|KNOWN-FINDING|INCONCLUSIVE|HELD|\[C)" /tmp/try_seed_out.txt | cut -c1-400 | head -12
+git -C /repo worktree remove --force "$WT"
+grep -E "^(VIOLATION|KNOWN-FINDING|INCONCLUSIVE|HELD|\[C)" "/tmp/tryseed_out/$NAME/out.txt" | cut -c1-400 | head -12
 echo "exit=$rc"
